@@ -19,5 +19,11 @@ Example C14_example :
   map p_fw (ptasks s) = [Some FPending; Some FCancelled; Some FCancelled].
 Proof. vm_compute. repeat split; reflexivity. Qed.
 
+(** Monitor soundness: the extracted monitor for C14 (all three clauses) never rejects a stream of the model. *)
+From TP Require PMonSound14_C14 PObs PMon.
+Theorem mon_sound : forall c tr, clean (run c tr) -> PMon.ok_C14 c (PObs.observe c tr) = true.
+Proof. exact PMonSound14_C14.mon_C14_sound. Qed.
+
 Print Assumptions C14.
 Print Assumptions C14_newest_first.
+Print Assumptions mon_sound.
